@@ -65,8 +65,37 @@ def make_mutate(quick):
     return mutate
 
 
+def jscan_stage(ctx, ths):
+    """the runtime's generic scanners (space, symbols, strings, numbers, constants, object/array delimiters, the generic skipper):
+    the real functions on exact-length heap copies under ASan/UBSan vs JsonScan.lean, call by call"""
+    h = build_harness(ctx, "h_jscan", [os.path.join(VERIF, "harness/h_jscan.c")],
+                      [o for o in build_runtime_objs(ctx, tag="rtjs") if not o.endswith("json_parser.o")], flags=SAN + ["-w"])
+    rc, o, e = sh([sys.executable, os.path.join(VERIF, "tools", "gen_jscan.py"), str(ctx.seed)])
+    lines = [l for l in o.split("\n") if l]
+    if ctx.quick():
+        lines = lines[::4]
+    rc, a, err = run_parallel(h, lines, 16, timeout=900)
+    rc, b, _ = run_parallel(FMODEL, lines, 16, timeout=900)
+    idx, a, b = diff_streams(lines, a, b)
+    oob = [i for i in range(len(lines)) if b[i].startswith("MODEL-")]
+    crash = [i for i in range(len(lines)) if a[i].startswith("<crash")]
+    if crash:
+        i = crash[0]
+        violation(ctx, "jscan_spec_%d.json" % ctx.seed, {"kind": "property-fails-on-implementation", "why": "scanner faulted (read outside the given bytes / sanitizer report)",
+                  "op": lines[i], "model_output": b[i], "stderr": err[-2500:], "count": len(crash)})
+    elif idx or oob:
+        i = (oob or idx)[0]
+        violation(ctx, "jscan_corr_%d.json" % ctx.seed, {"kind": "correspondence-broken", "engine": "jscan", "op": lines[i], "c_output": a[i], "model_output": b[i],
+                  "count": len(idx), "theorems_no_longer_tied": [t["name"] for t in ths if "scanner" in t["name"] or "generic" in t["name"]], "stderr": err[-1500:]}, no_failing_input=True)
+    fns = {}
+    for l in lines:
+        fns[l.split(" ")[1]] = fns.get(l.split(" ")[1], 0) + 1
+    return {"jscan_lines": len(lines), "jscan_functions": fns, "jscan_errors": sum(1 for x in a if x.startswith("err:")), "jscan_disagreements": len(idx)}
+
+
 def run(ctx):
     ths, results = c05.run(ctx, mutate=make_mutate(ctx.quick()), judge_extra=True)
+    jcov = jscan_stage(ctx, ths)
     bad = []
     nmut = nok = nerr = 0
     errs = {}
@@ -115,10 +144,13 @@ def run(ctx):
                 "byte replacements by structural / control / high bytes, deletions, insertions of quotes, escapes, surrogate halves, oversized and malformed numbers, "
                 "comments, duplicated spans, random bytes; nesting bombs of depth 10..5000 through objects and arrays; hand-made fragments ending inside every "
                 "token kind; random subsets of the five parser flags. Input copied to end exactly at a PROT_NONE page; ASan on the runtime; control text re-parsed "
-                "on the same builder every 50 mutants.",
-        "schemas": len(results), "mutants": nmut, "accepted": nok, "rejected": nerr, "error_codes": errs,
+                "on the same builder every 50 mutants. Scanner units: 17 runtime scanner functions called directly on exact-length heap copies (grammar-derived JSON "
+                "nested to MAX_NEST+2, every truncation, whitespace runs of 0..33 before the end, numbers ending after - . e e+, strings ending inside escapes, random bytes; "
+                "flags incl. skip_unknown and unquoted state) vs JsonScan.lean: result position / error class / error location / more / line / pos must agree.",
+        **jcov, "schemas": len(results), "mutants": nmut, "accepted": nok, "rejected": nerr, "error_codes": errs,
         "traces_validated_against_impl": nmut, "spec_oracle_failures": len(bad)})
     ctx.samples = []
-    ctx.notes = ["memory safety is decided by execution (guard page + sanitizer), not by proof; the theorems cover the string scanner/unescaper and the number scanners",
+    ctx.notes = ["memory safety of the generated per-schema parsers is decided by execution (guard page + sanitizer); for the runtime scanners it is proved on the model "
+                 "(every read guarded as in C: C04_scanners_read_in_bounds) and the model is tied call by call",
                  "allocation / emitter faults during a parse: see C13"]
     finish(ctx, ths)
